@@ -454,14 +454,14 @@ def check(ctx):
     ctx.rule("R09.2", "dispatch order/totality and structural images (cups, caps, sums, bubbles, objects in order ignoring winding, lookup typed by the images)")
     ctx.rule("R09.3", "flag-dagger discipline: a box's array is read only after its dagger flag has been handled")
     ctx.rule("R09.4", "spider arrays are the all-equal-index deltas of type dim^n -> dim^m")
-    check_functor(ctx)
+    ctx.attempt(check_functor, ctx)
     n, flags = check_flag_discipline(ctx, TEN, "R09.3")
     ctx.notes.append("flag-daggered classes: %s" % sorted(k.q for k in flags))
-    check_eval_and_spider(ctx)
+    ctx.attempt(check_eval_and_spider, ctx)
     ctx.rule("R09.7", "bubbles are typed like their inside unless told otherwise (cat, monoidal, tensor); .bubble() wraps the diagram itself with the module's own Bubble class")
-    check_bubble_types(ctx)
+    ctx.attempt(check_bubble_types, ctx)
     ctx.rule("R09.6", "evaluation through a contractor: to_tn builds one identity node per input, one node per box wired at its offset, swaps exchange open wires; the result is typed by the diagram")
-    check_to_tn(ctx)
+    ctx.attempt(check_to_tn, ctx)
     ctx.rule("R09.5", "the operations the evaluation is built from (then, tensor, dagger, swap, cups, caps of Tensor) have the matrix layout they claim (C08)")
     ctx.depend("R09.5", "C08", "evaluation composes the images with Tensor.then / tensor / swap / cups / dagger: each must contract and order the axes as a matrix product / Kronecker product", mod="discopy.tensor")
     # the default function of a tensor bubble: logical negation as NUMBERS (booleans would add with `or` and contract with `and`)
